@@ -124,6 +124,9 @@ pub fn exec_isolated_masked(run: &Run, limit: Duration, mask: Option<&str>) -> I
         }
         None => Command::new(exe),
     };
+    if mask.is_some() {
+        other_environment(&mut cmd);
+    }
     let mut child = cmd.arg("exec").arg(&path).arg("--progress").stdin(Stdio::null()).stdout(Stdio::piped()).stderr(Stdio::null()).spawn().expect("spawn exec child");
     let stdout = child.stdout.take().unwrap();
     let last_op = Arc::new(AtomicU64::new(0));
@@ -210,6 +213,23 @@ struct Agg {
     max_call_cpu_ms: u64,
 }
 
+/// The second batch of the cross-OS-process leg runs in processes that differ from the first in
+/// everything a process inherits besides its program: working directory (the root, so that every
+/// project file lies below it), CPU affinity, and the usual environment variables that libraries
+/// consult (backtraces, locale, time zone, home, colour).  None of that is project content.
+fn other_environment(cmd: &mut Command) {
+    cmd.current_dir("/")
+        .env("RUST_BACKTRACE", "1")
+        .env("RUST_LIB_BACKTRACE", "1")
+        .env("HOME", "/nonexistent-home")
+        .env("TZ", "Pacific/Kiritimati")
+        .env("LANG", "tr_TR.UTF-8")
+        .env("LC_ALL", "tr_TR.UTF-8")
+        .env("NO_COLOR", "1")
+        .env("COLUMNS", "20")
+        .env("USER", "nobody");
+}
+
 fn spawn_worker(property: &str, tier: &str, mask: Option<&str>) -> Child {
     let exe = std::env::current_exe().expect("current_exe");
     let mut cmd = match mask {
@@ -220,6 +240,9 @@ fn spawn_worker(property: &str, tier: &str, mask: Option<&str>) -> Child {
         }
         None => Command::new(exe),
     };
+    if mask.is_some() {
+        other_environment(&mut cmd);
+    }
     cmd.arg("worker").arg(property).arg(tier).stdin(Stdio::piped()).stdout(Stdio::piped()).stderr(Stdio::null()).spawn().expect("spawn worker")
 }
 
